@@ -543,6 +543,18 @@ def answer (cx : Ctx) (toks : List String) : Ctx × List String :=
       let res := Qsx.Ratio.pII p rows.toList
       pure [s!"res {res.stat.code} {res.lindex} {fmtRat cx res.tz} {fmtRat cx res.pivot} {res.lvstat} {if res.boundch then 1 else 0} {fmtRat cx res.lbound}"]).run' rest
     (cx, r.getD ["bad-op"])
+  | "ratiod2" :: rest =>
+    -- C03: ILLratio_dII_test on explicit columns: lvupper pivtol dftol n (zA dz cz vstat skip)*n
+    let r : Option (List String) := (do
+      let lvu ← pNat
+      let pv ← pRat cx; let df ← pRat cx
+      let n ← pNat
+      let cols ← pMany n (do
+        let zA ← pRat cx; let dz ← pRat cx; let cz ← pRat cx; let vs ← pNat; let sk ← pNat
+        pure ({ zA := zA, dz := dz, cz := cz, vstat := vs, skip := sk == 1 } : Qsx.Ratio.DCol))
+      let res := Qsx.Ratio.dII cx.pinf pv df (lvu == 1) cols.toList
+      pure [s!"res {res.stat.code} {res.eindex} {fmtRat cx res.tz} {fmtRat cx res.pivot} {if res.coeffch then 1 else 0} {fmtRat cx res.ecoeff}"]).run' rest
+    (cx, r.getD ["bad-op"])
   | ["mpsrange", sense, rhs, r] =>
     -- C09: what the MPS reader stores for a row of that sense / rhs with a RANGES value r ("-" = none)
     match parseRat? rhs, (if r == "-" then some none else (parseRat? r).map some) with
